@@ -2,5 +2,6 @@ SPECIFICATION Spec
 CONSTANTS TS <- TS21 W = 2 H = 1 D = 2 Clamp = "gt-d"
 INVARIANT AssertsOk
 INVARIANT Correct
+INVARIANT ClampedAbove
 INVARIANT NormalAtHit
 CHECK_DEADLOCK FALSE
